@@ -213,7 +213,7 @@ def run(ctx):
     n = 80 if quick else 3000
     terms, kept = [], []
     for i in range(n):
-        p = dprog.gen_dprogram(ctx.rng, with_order2=True, plain=("spoil", "wait", "pd"))
+        p = dprog.gen_dprogram(ctx.rng, with_order2=True, plain=("spoil", "wait", "pd", "reset"))
         try:
             snaps = dprog.run_impl_d(p)
         except ValueError as e:
